@@ -302,11 +302,107 @@ def check_keywords(ctx, rng):
     return texts
 
 
+# ---------------------------------------------------------------------------------------------------------------------------------
+# second red-team pass: contexts the keyword sweep did not have
+# (1) left contexts that a rule's look-behind inspects (period, colon, at-sign, bracket, quote, dollar …): the word's type is what the first matching
+#     rule AT THAT POSITION OF THE WHOLE TEXT says (a scan that shows the rules only the remainder of the text cannot see them)
+LOOKBEHIND_CTXS = [('x.', ' '), ('t1 .', ','), ('"q".', ' '), ('.', ' '), ('x. ', ' '), (':', ' '), ('::', ' '), ('@', ' '), ('x[', ']'), (']', ' '), (')', ' '), ('%', ' '), ('?', ' '),
+                   ("'s'", ' '), ('`b`', ' '), ('-', ' '), ('*', ' '), ('/', ' '), ('=', ';'), ('<', '>'), ('|', '|'), ('\\', ' ')]
+# (2) the word after the first word(s) of a multi-word keyword rule: only the documented combinations may join
+PREV_WORDS = ['not', 'order', 'group', 'union', 'end', 'left', 'right', 'full', 'inner', 'outer', 'cross', 'natural', 'straight', 'left outer', 'create', 'create or', 'double', 'primary',
+              'handler', 'go', 'nulls', 'asc', 'desc', 'asc nulls', 'lateral', 'lateral view', 'at', 'at time', 'at time zone', 'with', 'is', 'is not']
+MULTI = ['NOT NULL', 'ORDER BY', 'GROUP BY', 'UNION ALL', 'END IF', 'END LOOP', 'END WHILE', 'CREATE OR REPLACE', 'DOUBLE PRECISION', 'PRIMARY KEY', 'HANDLER FOR', 'NULLS FIRST', 'NULLS LAST',
+         'ASC NULLS FIRST', 'ASC NULLS LAST', 'DESC NULLS FIRST', 'DESC NULLS LAST', 'NOT LIKE', 'NOT ILIKE', 'NOT RLIKE', 'NOT REGEXP', 'LATERAL VIEW EXPLODE', 'LATERAL VIEW INLINE',
+         'LATERAL VIEW PARSE_URL_TUPLE', 'LATERAL VIEW POSEXPLODE', 'LATERAL VIEW STACK', 'CROSS JOIN', 'NATURAL JOIN'] + \
+    [(a + ' ' + b + ' JOIN').replace('  ', ' ').strip() for a in ('', 'LEFT', 'RIGHT', 'FULL') for b in ('', 'INNER', 'OUTER', 'STRAIGHT')]
+# (3) spellings that are NOT a letter casing of a dictionary word although a sloppier normalisation (casefold, NFKC, strip) would map them onto one
+KELVIN, CAP_SHARP_S = 'K', 'ẞ'
+
+
+def near_miss_spellings(w):
+    out = ['_' + w, w + '_', w + '1', w + '$', w + '#', 'x' + w, w + 'x', w + w, w[:-1], 'Ａ' + w[1:] if w[:1] == 'A' else ''.join(chr(ord(c) + 0xfee0) if 'A' <= c <= 'Z' else c for c in w)]
+    if 'K' in w:
+        out.append(w.replace('K', KELVIN, 1).lower())
+    if 'SS' in w:
+        out.append(w.replace('SS', CAP_SHARP_S, 1))
+    if 'I' in w:
+        out.append(w.replace('I', 'İ', 1))
+    return [v for v in out if len(v) > 1]
+
+
+def check_keyword_contexts(ctx, rng):
+    lx = lexer.Lexer.get_default_instance()
+    table = dict_type_table(ctx)
+    words = sorted(table)
+    texts = []
+
+    def one(l, casing, r, what):
+        text = l + casing + r
+        want, wval = expected_word_type(lx, table, text, len(l), casing)
+        toks = list(lexer.tokenize(text))
+        ctx.evaluations += 1
+        pos, got = 0, None
+        for tt, v in toks:
+            if pos == len(l):
+                got = (tt, v)
+                break
+            if pos > len(l):
+                break
+            pos += len(v)
+        texts.append(text)
+        return text, want, wval, got
+
+    # (1)
+    for w in words:
+        for l, r in (LOOKBEHIND_CTXS if not ctx.quick() else rng.sample(LOOKBEHIND_CTXS, 6)):
+            casing = rng.choice([w, w.lower(), w.capitalize()])
+            text, want, wval, got = one(l, casing, r, 'lookbehind')
+            if got is None:
+                ctx.count('kw:context-not-at-boundary')      # the left context swallowed the word's first character: not a delimiter
+                continue
+            if got[1] != wval or got[0] is not want:
+                ctx.fail('a dictionary word is not one token of its table type in a delimited context', text, observed=[ttname(got[0]), got[1]], required=[ttname(want), wval])
+    # (2)
+    multi = set(MULTI)
+    prefixes = {' '.join(m.split()[:k]) for m in multi for k in range(1, len(m.split()))}
+    for w in words:
+        # always: the first words of a documented multi-word keyword whose last word is a proper prefix of this word (NOT NULL|ABLE, ORDER BY|TE, PRIMARY KEY|S …)
+        risky = [' '.join(m.split()[:-1]).lower() for m in multi if w.startswith(m.split()[-1]) and w != m.split()[-1]]
+        for p in dict.fromkeys(risky + (PREV_WORDS if not ctx.quick() else rng.sample(PREV_WORDS, 6))):
+            pw = p.upper().split()
+            cands = [' '.join(pw[k:] + [w]) for k in range(len(pw))]
+            if any(j in multi or j in prefixes for j in cands):
+                continue
+            l = 'x ' + p + ' '
+            text, want, wval, got = one(l, w.lower(), ' y', 'after-word')
+            if got is None or got[1] != wval or got[0] is not want:
+                ctx.fail('a dictionary word after another word is not one token of its table type (only the documented multi-word keywords join)', text,
+                         observed=None if got is None else [ttname(got[0]), got[1]], required=[ttname(want), wval])
+    # (3)
+    sample = words if not ctx.quick() else [w for w in words if rng.random() < 0.35]
+    for w in sample:
+        for v in near_miss_spellings(w):
+            if v.upper() in table or len(list(lexer.tokenize('x'))) != 1:
+                continue
+            for l, r in (('', ''), (' ', ' '), ('(', ')')):
+                text = l + v + r
+                toks = list(lexer.tokenize(text))
+                ctx.evaluations += 1
+                want, wval = expected_word_type(lx, table, text, len(l), v)
+                if wval != v:
+                    continue                    # the rules cut the spelling differently (a digit or symbol start): not one word
+                if not any(tt is want and val == v for tt, val in toks):
+                    ctx.fail('a word in no dictionary is not a Name', text, observed=[(ttname(t), val) for t, val in toks][:4], required=[ttname(want), v])
+    ctx.count('kw:second-pass-contexts', len(texts))
+    return texts
+
+
 def run(ctx):
     rng = ctx.rng
     texts = [check_region(ctx, rng) for _ in range(ctx.n(4000, 80000))]
     texts += check_edge_regions(ctx, rng)
     kwtexts = check_keywords(ctx, rng)
+    kwtexts += check_keyword_contexts(ctx, rng)
     ctx.samples += [short(t, 60) for t in texts[:4]]
     if ctx.model.available:
         streams.s_lex(ctx, texts[: ctx.n(2000, 30000)])
